@@ -212,6 +212,8 @@ def run(rep, tier, rng):
                     add(f"check_imat {al} {c.nat(d)} {x} {T} {obs_t(o, algs.enc_mat)}",
                         dict(base, op="history-inversion-matrix", side=x, obs=c.obs_json(o), py=f"A.get_inversion_matrix({d}, sidedness={algs.SIDE_PY[x]}) after {pos} other calls"),
                         ("h-imat", al, d, x, rnd, pos))
+                    if o[0] == "ok" and isinstance(o[1], np.ndarray) and o[1].flags.writeable:
+                        o[1][...] = 7.0
                 elif kind == "invert":
                     arr = algs.fl(y) if pos % 2 == 0 else np.array(y, dtype=int)      # integer-typed arrays are vectors too
                     o = c.observe(lambda: A.invert(arr, sidedness=algs.side_obj(x)))
@@ -223,6 +225,8 @@ def run(rep, tier, rng):
                     add(f"check_element {al} {y} {c.nat(d)} {x} {T} {obs_t(o)}",
                         dict(base, op="history-element", side=x, el=y, obs=c.obs_json(o), py=f"A.{ELEMS[y]}({d}, sidedness={algs.SIDE_PY[x]}) after {pos} other calls"),
                         ("h-element", al, d, x, y, rnd, pos))
+                    if o[0] == "ok" and isinstance(o[1], np.ndarray) and o[1].flags.writeable:
+                        o[1][...] = 7.0          # a caller scribbling over its result must not change later answers
                 else:
                     o = c.observe(lambda: A.get_binding_matrix(algs.fl(y), swap_inputs=x))
                     add(f"check_bmat {al} {c.zlist(y)} {c.b(x)} {algs.tol_for(y, d=1)} {obs_t(o, algs.enc_mat)}",
